@@ -57,6 +57,7 @@ def check_C03(ctx):
 
 
 # ------------------------------------------------------------------------------------------------ helpers
+ROSRC = {'HX_FENCE': '1', 'HX_ROSRC': '1'}      # harness/rec.c: fenced blocks + read-only mapping of input-only operands during each call
 def probe(ctx, build):
     from verif import sh
     rc, out = sh([ctx.hx(build, 'verif-probe')], timeout=60)
@@ -226,6 +227,10 @@ def check_C05(ctx):
     paths = ctx.run_driver(b, 'alias', shards=16, timeout=1200)
     paths += ctx.run_driver(b, 'corners_all', shards=16, timeout=1200)      # every mpz function on every corner-alphabet operand
     paths += ctx.run_driver(b, 'alias_qf', shards=8, timeout=1200)          # every mpq and mpf function, same enumeration
+    # read-only sources: the limb block of every input-only operand (not aliased to an output of the call) is mapped read-only while the call runs, so a
+    # write into a source -- even one undone before the return, which no comparison of values can see -- is a crash event (found F-C15-1)
+    for d, shards in [('alias', 8), ('alias_qf', 8)] + ([] if q else [('corners_all', 8), ('corners_qf', 8), ('hist', 8), ('hist_qf', 8)]):
+        paths += ctx.run_driver(b, d, shards=shards, timeout=1200, tier='quick', env=ROSRC, tag='-rosrc')
     ctx.validate(paths)
     pp = ctx.run_driver(b, 'alias', shards=1, extra='pure,funs=mpz_add:mpz_sub:mpz_mul:mpz_tdiv_qr:mpz_and:mpz_ior:mpz_gcd:mpz_addmul:mpz_neg:mpz_mul_2exp:mpz_fdiv_q:mpz_cdiv_r', timeout=300)
     ctx.validate(pp, pure=True)
@@ -233,7 +238,8 @@ def check_C05(ctx):
         rule='R2: MpzAors and MpzLogic enumerate all 27 identity triples x values x allocations over a block store (pointer re-reads, store order). R3/R1: for every mpz function '
              'of the API table every set partition of its mpz arguments into identity classes (minus two results in one variable, which the manual excludes) x 3 operand size '
              'classes x {exact, generous} allocation is executed; MPIR.tla computes the expected result from its OWN pre-state (i.e. as if the operands were distinct) and '
-             'requires every non-output operand to keep its value. distinct = distinct (function, partition, operands); non-trivial = at least two limbs',
+             'requires every non-output operand to keep its value. Read-only sources: the alias sweeps run a second time with every block its own mapping and the limbs of '
+             'each input-only operand mapped read-only during the call (a transient write to a source faults). distinct = distinct (function, partition, operands); non-trivial = at least two limbs',
         explanation='alias-partition enumeration from the API table, validated against the abstract machine; memory-and-aliasing models')
 
 
@@ -665,6 +671,11 @@ def check_C15(ctx):
     # write inventory: the global-write detector runs inside every driver; these cover the whole API surface (single-threaded, deterministic)
     for d, shards in [('c15_sizes', 6), ('hist', 8), ('alias', 8), ('c13', 4), ('c12', 4), ('c16_prime', 4), ('c16_comb', 2), ('c18_misc', 2), ('c19_hist', 4), ('c17_stream', 4), ('c06_mpz', 4), ('c08_powm', 4), ('c07_mpz', 4)]:
         paths += ctx.run_driver(b, d, shards=shards, timeout=900, tier='quick')
+    # read-only sources: threads may share SOURCE objects, so any write into the limbs of an input-only operand is a data race even if it is undone before the
+    # call returns (sequentially invisible).  Each such block is mapped read-only while the call runs; a write is a crash event.  (F-C15-1: mpz_powm masked a
+    # limb of its modulus in place inside mpn_mulmod_2expm1.)
+    for d, shards in [('hist', 8), ('alias', 8), ('alias_qf', 4), ('c08_powm', 8), ('c16_prime', 4), ('c07_mpz', 4), ('c06_mpz', 4), ('c09_mpz', 4), ('c15_sizes', 6)] + ([] if q else [('corners_all', 8), ('corners_qf', 8), ('hist_qf', 8), ('c02_mpz', 4), ('c10_mpz', 4), ('c11', 4), ('c12', 4), ('c13', 4), ('c16_comb', 2)]):
+        paths += ctx.run_driver(b, d, shards=shards, timeout=1200, tier='quick', env=ROSRC, tag='-rosrc')
     ctx.validate(paths)
     ctx.notes.append(f'schedules enumerated by TLC and forced on the real library: {len(scheds)}')
     tsan_reports = 0
@@ -684,7 +695,8 @@ def check_C15(ctx):
              'scheduler that lets exactly one thread run between yield points (every entry into the memory functions), for operands below and above the 65536-byte TMP_ALLOC stack/heap switch; '
              'each thread\'s recorded calls are validated against the sequential MPIR.tla and its private random stream must equal the serial stream. Write inventory: the global-write '
              'detector (every writable chunk libmpir contributes to the static executable is snapshotted around every call) runs in 12 drivers covering the API; MPIR!GlobalWrite admits only '
-             'the documented globals. thorough: the workload also runs unscheduled on a ThreadSanitizer build. distinct = distinct (schedule, thread, call); non-trivial = operand of two limbs or more',
+             'the documented globals. Read-only sources: in a second pass over the API-wide drivers the limb block of every input-only mpz/mpq/mpf operand is mapped read-only '
+             'while the call runs, so a transient write into a shared source (a race no sequential comparison sees) is a crash event. thorough: the workload also runs unscheduled on a ThreadSanitizer build. distinct = distinct (schedule, thread, call); non-trivial = operand of two limbs or more',
         explanation='schedules at yield-point granularity only; races inside a segment are visible only to the TSan pass',
         extra_cov=dict(schedules=len(scheds), tsan_reports=tsan_reports))
 
